@@ -108,6 +108,11 @@ def from_points_rules(cx, CP, C, d):
             # accumulator
             inits, elems = cx.pushes_through(b, fl.get('lengths'))       # built in place, or by a helper that returns it
             ok_init = inits == [('veclit', ('agg', 'array', ('0', ('const', 0.0))))]
+            if not ok_init and inits and all(i_[0] == 'call' and i_[1] in ('Vec::new', 'Vec::with_capacity') for i_ in inits) and elems and elems[0][0] == 'Vec::push' and \
+                    elems[0][2][0] == ('const', 0.0):
+                # `let mut lengths = Vec::with_capacity(n); lengths.push(0.0);` is the literal [0.0] spelled in two statements
+                ok_init = True
+                elems = elems[1:]
             cx.ob('CONSTRUCT', f'{C}::from_points:lengths:init', ok_init, 'lengths starts as the literal [0.0]', where=s, found='; '.join(show(i) for i in inits))
             ok_el = len(elems) == 1 and elems[0][0] == 'Vec::push'
             m = None
@@ -128,6 +133,7 @@ def from_points_rules(cx, CP, C, d):
                   found=elems[0][2][0] if elems else None)
             if m:
                 prev_ok = match('(call Option::unwrap_or (call slice::last $L) _)', m['prev']) is not None or match('(unwrap (call slice::last $L))', m['prev']) is not None or \
+                    match('(phi 0.0 (loop))', m['prev']) is not None or \
                     (match('(index $L $i)', m['prev'], {'i': m['i']}) is not None)
                 cx.ob('CONSTRUCT', f'{C}::from_points:lengths:prev', prev_ok, 'the increment is added to the most recent element of lengths (last(), or lengths[i] with one push per i)',
                       where=s, found=m['prev'])
